@@ -303,3 +303,31 @@ mod tests {
 		assert_eq!(a.as_ptr(), b.as_ptr());
 	}
 }
+
+/// Read-only accessors for verification monitors, compiled only with the
+/// off-by-default `verif-hooks` feature.
+#[cfg(feature = "verif-hooks")]
+pub mod verif {
+	use crate::{IBytes, IStr, Inner, POOL};
+
+	/// Number of distinct byte strings currently held by this thread's pool
+	#[must_use]
+	pub fn pool_len() -> usize {
+		POOL.with(|pool| pool.borrow().len())
+	}
+	/// Is there a pool entry with exactly these contents
+	#[must_use]
+	pub fn pool_contains(bytes: &[u8]) -> bool {
+		POOL.with(|pool| pool.borrow().contains_key(bytes))
+	}
+	/// Reference count of the allocation behind the handle (handles + pool entry)
+	#[must_use]
+	pub fn strong_count_str(s: &IStr) -> u32 {
+		Inner::strong_count(&s.0)
+	}
+	/// Reference count of the allocation behind the handle (handles + pool entry)
+	#[must_use]
+	pub fn strong_count_bytes(s: &IBytes) -> u32 {
+		Inner::strong_count(&s.0)
+	}
+}
